@@ -34,6 +34,7 @@ ASSUMPTIONS = [
 ]
 
 KH = "bempp_cl/core/sources/include/kernels.h"
+NK = K.NK
 OCK = "bempp_cl/core/opencl_kernels.py"
 VARIANTS = ("novec", "vec4", "vec8", "vec16")
 SHAPE_HEADERS = {
@@ -106,6 +107,16 @@ def run(ctx):
     r_fast = ctx.rule("CL-FAST", "OpenCL `if (k_imag != 0)` fast path: skipped path == taken path at k_imag = 0", 12)
     programs = 0
     used = set()
+    # Numba keeps two copies of every kernel (regular / singular quadrature); OpenCL has one.  "The same kernels" therefore
+    # also means: the two Numba copies registered for one kernel type are one function.
+    nsing = K.registries(ctx)["kernel_functions_singular"]
+    r_sib = ctx.rule("NUMBA-REG-SING", "the regular and the singular Numba kernel registered for one kernel type are the same function of (x, y, n_x, n_y, k) - the function the single OpenCL kernel of that type is compared with", 9)
+    for kt in sorted(set(nreg) & set(nsing)):
+        np_ = K.n_params(kt)
+        a, _, _ = K.extract_checked(ctx, nreg[kt], False, np_)
+        b, _, _ = K.extract_checked(ctx, nsing[kt], True, np_)
+        r_sib.check(a.eq(b), "%s vs %s" % (nreg[kt], nsing[kt]), NK, nsing[kt], ctx.repo.mod(NK).fn(nsing[kt]).lineno, "%s != %s" % (nsing[kt], nreg[kt]),
+                    "the singular-quadrature copy %s and the regular copy %s of kernel type %s differ as functions" % (nsing[kt], nreg[kt], kt))
     for kt in sorted(set(clreg) & set(nreg)):
         np_ = K.n_params(kt)
         pv, ifs, okf = K.extract_checked(ctx, nreg[kt], False, np_)
